@@ -782,10 +782,11 @@ type plan struct {
 	cinfo    *types.Info // type information of the callee's package
 	cname    string
 	recvName string
-	iife     bool     // the body is kept whole, as a literal called on the spot (a callee that defers)
-	anchor   ast.Stmt // the statement in a statement list before which the inlined block is placed
-	stmt     ast.Stmt // the statement containing the call
-	wholeStm bool     // the statement is just the call (results dropped)
+	iife     bool                    // the body is kept whole, as a literal called on the spot (a callee that defers)
+	ren      map[types.Object]string // parameters renamed at this site (their name is captured by a literal argument)
+	anchor   ast.Stmt                // the statement in a statement list before which the inlined block is placed
+	stmt     ast.Stmt                // the statement containing the call
+	wholeStm bool                    // the statement is just the call (results dropped)
 	recvText string
 }
 
@@ -1447,6 +1448,36 @@ func (r *rw) emit(pk *packages.Package, file *ast.File, pl *plan) {
 		fmt.Fprintf(&b, "var %s %s\n", t, ts)
 	}
 	b.WriteString("{\n")
+	// a parameter whose name a literal argument captures from the caller (`scan(&cred, func() { … cred … })` with a
+	// parameter called cred) is renamed in this copy of the body: the literal must keep meaning the caller's variable
+	// when it is itself inlined later
+	pl.ren = map[types.Object]string{}
+	capt := map[string]bool{}
+	for _, a := range pl.call.Args {
+		ast.Inspect(a, func(n ast.Node) bool {
+			lit, ok := n.(*ast.FuncLit)
+			if !ok {
+				return true
+			}
+			ast.Inspect(lit.Body, func(m ast.Node) bool {
+				if id, ok := m.(*ast.Ident); ok {
+					if o := pk.TypesInfo.Uses[id]; o != nil && o.Pos().IsValid() && !(lit.Pos() <= o.Pos() && o.Pos() < lit.End()) {
+						capt[id.Name] = true
+					}
+				}
+				return true
+			})
+			return false
+		})
+	}
+	pname := func(v *types.Var, dflt string) string {
+		if v != nil && dflt != "_" && capt[dflt] {
+			nn := fmt.Sprintf("%s_inl%s", dflt, k)
+			pl.ren[v] = nn
+			return nn
+		}
+		return dflt
+	}
 	// receiver and parameters
 	var names, vals []string
 	if rv := sig.Recv(); rv != nil {
@@ -1457,7 +1488,7 @@ func (r *rw) emit(pk *packages.Package, file *ast.File, pl *plan) {
 		}
 		se, _ := ast.Unparen(pl.call.Fun).(*ast.SelectorExpr)
 		if se == nil || !r.sameNameArg(pk, file, pl, se.X, rv) || pl.recvText != rv.Name() {
-			names = append(names, pl.recvName)
+			names = append(names, pname(rv, pl.recvName))
 			vals = append(vals, "("+ts+")("+pl.recvText+")")
 		}
 	}
@@ -1477,6 +1508,9 @@ func (r *rw) emit(pk *packages.Package, file *ast.File, pl *plan) {
 		name := pv.Name()
 		if name == "" {
 			name = "_"
+		}
+		if !(i < len(args) && !(sig.Variadic() && i == np-1) && r.sameNameArg(pk, file, pl, args[i], pv)) {
+			name = pname(pv, name)
 		}
 		names = append(names, name)
 		if sig.Variadic() && i == np-1 {
@@ -1525,12 +1559,12 @@ func (r *rw) emit(pk *packages.Package, file *ast.File, pl *plan) {
 			}
 			rs = append(rs, ts)
 		}
-		fe0 := r.file(r.fname(pl.body.Pos()))
+		whole, _, _ := r.bodyText(pl, nil, nil, "")
 		if len(temps) > 0 {
 			fmt.Fprintf(&b, "%s = ", strings.Join(temps, ", "))
 		}
 		fmt.Fprintf(&b, "func() (%s) {\n//line %s:%d\n%s\n}()\n}\n", strings.Join(rs, ", "), r.fname(pl.body.Pos()),
-			r.p.Fset.PositionFor(pl.body.Lbrace, false).Line, string(fe0.src[r.off(pl.body.Lbrace)+1:r.off(pl.body.Rbrace)]))
+			r.p.Fset.PositionFor(pl.body.Lbrace, false).Line, whole)
 		r.finishEmit(pk, file, pl, &b, temps)
 		return
 	}
@@ -1609,27 +1643,44 @@ func (r *rw) bodyText(pl *plan, temps, named []string, label string) (string, bo
 	okAll := true
 	var rets []*ast.ReturnStmt
 	labels := map[string]bool{}
+	if label != "" {
+		ast.Inspect(pl.body, func(n ast.Node) bool {
+			switch x := n.(type) {
+			case *ast.FuncLit:
+				return false
+			case *ast.LabeledStmt:
+				labels[x.Label.Name] = true
+			}
+			return true
+		})
+	}
+	if len(pl.ren) > 0 {
+		ast.Inspect(pl.body, func(n ast.Node) bool {
+			if id, ok := n.(*ast.Ident); ok {
+				if nn, has := pl.ren[pl.cinfo.Uses[id]]; has {
+					eds = append(eds, edit{r.off(id.Pos()), r.off(id.End()), nn})
+				}
+			}
+			return true
+		})
+	}
 	ast.Inspect(pl.body, func(n ast.Node) bool {
 		switch x := n.(type) {
 		case *ast.FuncLit:
 			return false
 		case *ast.LabeledStmt:
-			labels[x.Label.Name] = true
-		}
-		return true
-	})
-	ast.Inspect(pl.body, func(n ast.Node) bool {
-		switch x := n.(type) {
-		case *ast.FuncLit:
-			return false
-		case *ast.LabeledStmt:
+			if label == "" {
+				return true
+			}
 			eds = append(eds, edit{r.off(x.Label.Pos()), r.off(x.Label.End()), x.Label.Name + "_" + label})
 		case *ast.BranchStmt:
 			if x.Label != nil && labels[x.Label.Name] {
 				eds = append(eds, edit{r.off(x.Label.Pos()), r.off(x.Label.End()), x.Label.Name + "_" + label})
 			}
 		case *ast.ReturnStmt:
-			rets = append(rets, x)
+			if label != "" {
+				rets = append(rets, x)
+			}
 		}
 		return true
 	})
